@@ -1,6 +1,6 @@
 """What is claimed, per property. A property appears in CLAIMS only once its checker exists and
 passes on the unchanged tree."""
-FIX_COMMITS = ["4e9e139", "5ee6583", "744f482", "eb93a13", "ceb972a", "a924d81"]
+FIX_COMMITS = ["4e9e139", "5ee6583", "744f482", "eb93a13", "ceb972a", "a924d81", "2127bcd"]
 
 CLAIMS = {
     "C09": dict(
@@ -67,6 +67,16 @@ CLAIMS = {
         ref="DESIGN.md §3 C14",
         note="trusts rustworkx's index recycling / edge removal semantics and CPython's id() reuse",
         technique="static analysis: effect analysis (add/remove sites per structure over call closures), id-key hygiene rule, decision table of add_relation",
+    ),
+    "C15": dict(
+        text="Discharges that the incremental update is an instance of the fixpoint rule whose order independence follows by induction: "
+             "all three inference families run on every newly added edge, each derives edges of the same class marked inferred and sends "
+             "them through the same procedure, the transitive family has both directions with the right neighbourhoods and property filter, "
+             "inferred edges are written back, nothing in ontomatic adds a relation behind the procedure's back, and each derived edge's "
+             "field belongs to its source's class. The closure itself is not computed.",
+        ref="DESIGN.md §3 C15",
+        note="the least-fixpoint argument is a paper induction over the update rule; graph coherence is C14",
+        technique="static analysis: must-call / who-may-call rules and sibling cross-check of (source, field) provenance on resolved ASTs",
     ),
 }
 
